@@ -243,37 +243,39 @@ def decimalVal (s : Bool) (mant : Nat) (exp10 : Int) : Val :=
   else if exp10 ≥ 0 then rnd s (mant * 10 ^ exp10.toNat * U) 1
   else rnd s (mant * U) (10 ^ (-exp10).toNat)
 
-def parseDec (l : List Char) : Option Val :=
-  let (s, l) := match l with
-    | '-' :: r => (true, r)
-    | '+' :: r => (false, r)
-    | r => (false, r)
+/-- optional sign -/
+def splitSign : List Char → Bool × List Char
+  | '-' :: r => (true, r)
+  | '+' :: r => (false, r)
+  | r => (false, r)
+
+/-- the part after the sign -/
+def parseBody (s : Bool) (l : List Char) : Option Val :=
   let low := l.map lower
   if low == ['i', 'n', 'f'] || low == ['i', 'n', 'f', 'i', 'n', 'i', 't', 'y'] then some (.inf s)
   else if low == ['n', 'a', 'n'] then some .nan
   else
     let ip := l.takeWhile isDigit
     let r := l.dropWhile isDigit
-    let (fp, r, dot) := match r with
-      | '.' :: r' => (r'.takeWhile isDigit, r'.dropWhile isDigit, true)
-      | _ => ([], r, false)
+    let (fp, r) := match r with
+      | '.' :: r' => (r'.takeWhile isDigit, r'.dropWhile isDigit)
+      | _ => ([], r)
     if ip.isEmpty && fp.isEmpty then none
     else
-      let _ := dot
       let mant := digitsVal (ip ++ fp)
       match r with
       | [] => some (decimalVal s mant (-(fp.length : Int)))
       | e :: r' =>
         if e == 'e' || e == 'E' then
-          let (es, ds) := match r' with
-            | '-' :: t => (true, t)
-            | '+' :: t => (false, t)
-            | t => (false, t)
+          let (es, ds) := splitSign r'
           if ds.isEmpty || !ds.all isDigit then none
           else
             let ev : Int := digitsVal ds
             some (decimalVal s mant ((if es then -ev else ev) - fp.length))
         else none
+
+def parseDec (l : List Char) : Option Val :=
+  parseBody (splitSign l).1 (splitSign l).2
 
 /-- Python `str.isspace` restricted to ASCII -/
 def isSpace (c : Char) : Bool :=
@@ -292,20 +294,28 @@ def splitWs (l : List Char) : List (List Char) :=
 def stripWs (l : List Char) : List Char :=
   ((l.dropWhile isSpace).reverse.dropWhile isSpace).reverse
 
+/-- `if val and val[0] in '({[<': val = val[1:]` -/
+def dropOpen (v : List Char) : List Char :=
+  match v with
+  | c :: r => if c == '(' || c == '{' || c == '[' || c == '<' then r else v
+  | [] => v
+
+/-- `if val and val[-1] in ')}]>': val = val[:-1]` -/
+def dropClose (v : List Char) : List Char :=
+  match v.reverse with
+  | c :: r => if c == ')' || c == '}' || c == ']' || c == '>' then r.reverse else v
+  | [] => v
+
 /-- `parse_vec_str(val)` for a `str` argument: `none` means "the defaults are returned". -/
 def parseVecStr (l : List Char) : Option (Val × Val × Val) :=
-  let v := stripWs l
-  let v := match v with
-    | c :: r => if c == '(' || c == '{' || c == '[' || c == '<' then r else v
-    | [] => v
-  let v := match v.reverse with
-    | c :: r => if c == ')' || c == '}' || c == ']' || c == '>' then r.reverse else v
-    | [] => v
-  match splitWs v with
+  match splitWs (dropClose (dropOpen (stripWs l))) with
   | [a, b, c] =>
     match parseDec a, parseDec b, parseDec c with
     | some x, some y, some z => some (x, y, z)
     | _, _, _ => none
   | _ => none
+
+/-- `str(vec)` / `str(angle)`: the three components through `format_float`, separated by single spaces -/
+def vecStr (x y z : Val) : List Char := formatFloat x ++ ' ' :: (formatFloat y ++ ' ' :: formatFloat z)
 
 end B64
